@@ -114,7 +114,7 @@ func (vc *VC) run() {
 	for _, p := range fn.Params {
 		v := vc.fresh(p.Type(), "p_"+p.Name())
 		vc.vals[p] = v
-		vc.params[p.Name()] = v
+		vc.params[vc.eng.rn(vc.selfKey(), p.Name())] = v
 		vc.paramObjFacts(v)
 	}
 	for _, fv := range fn.FreeVars {
@@ -165,7 +165,8 @@ func (vc *VC) collectDebug() {
 		for i, ins := range b.Instrs {
 			if d, ok := ins.(*ssa.DebugRef); ok && !d.IsAddr {
 				if o := d.Object(); o != nil {
-					vc.debug[o.Name()] = append(vc.debug[o.Name()], debugBinding{b, i, d.X})
+					n := vc.eng.rn(vc.selfKey(), o.Name())
+					vc.debug[n] = append(vc.debug[n], debugBinding{b, i, d.X})
 				}
 			}
 		}
@@ -282,6 +283,10 @@ func (vc *VC) execBlock(b *ssa.BasicBlock) {
 	vc.blockBound(b)
 	if l, isHeader := vc.loops[b]; isHeader {
 		vc.enterLoop(b, l)
+	} else if b.Index == 0 && b.Parent() != vc.fn {
+		// entry of a helper executed in place: the caller's path condition, memory and counters
+		vc.R[b] = vc.inlR
+		vc.curMem = vc.inlMem.clone()
 	} else if b.Index == 0 {
 		vc.R[b] = "true"
 		vc.curMem = vc.mem0.clone()
@@ -507,7 +512,7 @@ func (vc *VC) enterLoop(b *ssa.BasicBlock, l *loopInfo) {
 		}
 		vc.vals[phi] = v
 		if phi.Comment != "" {
-			phiVals[phi.Comment] = v
+			phiVals[vc.eng.rn(vc.selfKey(), phi.Comment)] = v
 		}
 	}
 	env := vc.loopEnv(l, phiVals, vc.curMem)
@@ -548,7 +553,7 @@ func (vc *VC) checkInvFrom(l *loopInfo, from, header *ssa.BasicBlock, mem *Mem, 
 			break
 		}
 		if phi.Comment != "" {
-			phiVals[phi.Comment] = vc.coerce(vc.val(phi.Edges[idx]), phi.Type())
+			phiVals[vc.eng.rn(vc.selfKey(), phi.Comment)] = vc.coerce(vc.val(phi.Edges[idx]), phi.Type())
 		}
 	}
 	env := vc.loopEnv(l, phiVals, mem)
